@@ -190,6 +190,11 @@ def handler_action(rt, chart, e, i, key, a):
     chart.is_in(rt.fns[a[1]])
   elif k == "current_state":
     chart.current_state()
+  elif k in ("clear_spy", "clear_trace"):
+    # a handler that empties the accumulated log while its step is running
+    getattr(chart, k)()
+    if rt.keep_raw:
+      rt.raw.append(("act", k, None))
 
 
 class Observed:
@@ -287,6 +292,8 @@ class RealQueued:
       o.ret = r
       o.extra["recalled"] = r.payload if r is not None else None
       o.extra["identity"] = (r is None) or (self.events.get(r.payload) is r) or (r.payload not in self.events)
+    elif k in ("clear_spy", "clear_trace"):
+      getattr(c, k)()
     elif k == "next_rtc":
       o.ret = c.next_rtc()
     elif k == "complete_circuit":
